@@ -40,11 +40,28 @@ type CaseLock struct {
 	Pair bool `json:"pair,omitempty"`
 	// Multi (generic locker): the pair is taken by one Locks / RLocks call.
 	Multi bool `json:"multi,omitempty"`
+	// RwRatio (semaphore map): 0 = no option (the documented default 10), else
+	// WithRwRatio(RwRatio) on the sharded and on the unsharded map.
+	RwRatio int `json:"rw,omitempty"`
+	// Other: a second sharded structure of the same family (and type argument)
+	// with its own unsharded twin. It is built while key number Other.At of the
+	// first structure is held; from then on every key is held on both structures
+	// at the same time. Structures are independent objects: building or using
+	// one must not change what the other one does.
+	Other *LockInst `json:"other,omitempty"`
+}
+
+type LockInst struct {
+	Shards uint64 `json:"shards"`
+	XHash  bool   `json:"xhash"`
+	At     int    `json:"at"`
 }
 
 var (
 	lockShards = []uint64{1, 2, 3, 73, 211, 257, 1000}
-	lockTTs    = []string{"any", "hit", "int", "u16", "str", "bs", "i64", "u8"}
+	// more shards than an int16 / uint16 index can address
+	lockShardsBig = []uint64{65521, 32749, 32771, 40009}
+	lockTTs       = []string{"any", "hit", "int", "u16", "str", "bs", "i64", "u8"}
 )
 
 func GenLock(t *rapid.T) CaseLock {
@@ -52,13 +69,27 @@ func GenLock(t *rapid.T) CaseLock {
 		Fam:   rapid.SampledFrom([]string{FamKeyLock, FamTKeyLock, FamSemMap}).Draw(t, "fam"),
 		XHash: rapid.Bool().Draw(t, "xhash"),
 	}
-	if rapid.IntRange(0, 9).Draw(t, "shardsKind") < 9 {
+	switch k := rapid.IntRange(0, 59).Draw(t, "shardsKind"); {
+	case k < 53:
 		c.Shards = rapid.SampledFrom(lockShards).Draw(t, "shards")
-	} else {
+	case k < 59:
 		c.Shards = uint64(rapid.IntRange(1, 512).Draw(t, "shardsAny"))
+	default: // rare: tens of thousands of lockers are built for the case
+		c.Shards = rapid.SampledFrom(lockShardsBig).Draw(t, "shardsBig")
 	}
 	n := c.Shards
-	hitOK := !c.XHash
+	if rapid.IntRange(0, 3).Draw(t, "second") == 3 {
+		c.Other = &LockInst{XHash: rapid.Bool().Draw(t, "xhash2"), At: rapid.IntRange(0, 5).Draw(t, "builtAt")}
+		if rapid.Bool().Draw(t, "shards2Kind") {
+			c.Other.Shards = rapid.SampledFrom(lockShards).Draw(t, "shards2")
+		} else {
+			c.Other.Shards = uint64(rapid.IntRange(1, 512).Draw(t, "shards2Any"))
+		}
+	}
+	if c.Fam == FamSemMap {
+		c.RwRatio = rapid.SampledFrom([]int{0, 0, 1, 2, 3, 7, 10, 25}).Draw(t, "rwRatio")
+	}
+	hitOK := !c.XHash && (c.Other == nil || !c.Other.XHash)
 	if c.Fam == FamTKeyLock {
 		for {
 			c.TT = rapid.SampledFrom(lockTTs).Draw(t, "tt")
@@ -107,7 +138,8 @@ type lockFace interface {
 	// multi takes all keys with one call (generic locker only).
 	multi(ks []interface{}, read bool) (release func(), ok bool)
 	entries() int
-	// counts: reader / writer references of the key's entry (key lockers only).
+	// counts: reader / writer references of the key's entry (key lockers); tokens
+	// held / queued waiters of the key's semaphore (semaphore map).
 	counts(k interface{}) (r, w int, present, ok bool)
 }
 
@@ -173,9 +205,12 @@ func (a semLock) acquire(k interface{}, read bool) (func(), error) {
 	}
 	return func() { a.m.ReleaseWrite(k, w) }, nil
 }
-func (a semLock) multi([]interface{}, bool) (func(), bool)  { return nil, false }
-func (a semLock) entries() int                              { return semap.VerifEntries(a.m) }
-func (a semLock) counts(interface{}) (int, int, bool, bool) { return 0, 0, false, false }
+func (a semLock) multi([]interface{}, bool) (func(), bool) { return nil, false }
+func (a semLock) entries() int                             { return semap.VerifEntries(a.m) }
+func (a semLock) counts(k interface{}) (int, int, bool, bool) {
+	held, waiters, p := semap.VerifKeyState(a.m, k)
+	return held, waiters, p, true
+}
 
 func mkT[T comparable](n uint64, xhash bool) (lockFace, lockFace) {
 	if xhash {
@@ -184,42 +219,48 @@ func mkT[T comparable](n uint64, xhash bool) (lockFace, lockFace) {
 	return tLock[T]{keylock.NewTKeyLockeGrp[T](remap.WithPrime(n))}, tLock[T]{keylock.NewTKeyLocker[T]()}
 }
 
-// mkLock builds the sharded structure and its unsharded counterpart.
-func mkLock(c CaseLock) (wide, single lockFace, ctor string, ok bool) {
-	n := c.Shards
+// mkLock builds a sharded structure of the case's family with n shards and its
+// unsharded counterpart.
+func mkLock(c CaseLock, n uint64, xhash bool) (wide, single lockFace, ctor string, ok bool) {
 	switch c.Fam {
 	case FamKeyLock:
-		if c.XHash {
+		if xhash {
 			return anyLock{keylock.NewXHashKeyLockeGrp(remap.WithPrime(n))}, anyLock{keylock.NewKeyLocker()}, "keylock.NewXHashKeyLockeGrp", true
 		}
 		return anyLock{keylock.NewKeyLockeGrp(remap.WithPrime(n))}, anyLock{keylock.NewKeyLocker()}, "keylock.NewKeyLockeGrp", true
 	case FamSemMap:
-		if c.XHash {
-			return semLock{semap.NewWideXHashSemMap(semap.WithPrime(n))}, semLock{semap.NewSemMap()}, "semap.NewWideXHashSemMap", true
+		wopts, sopts, sfx := []semap.Option{semap.WithPrime(n)}, []semap.Option(nil), ""
+		if c.RwRatio != 0 {
+			wopts = append(wopts, semap.WithRwRatio(c.RwRatio))
+			sopts = append(sopts, semap.WithRwRatio(c.RwRatio))
+			sfx = fmt.Sprintf("(WithRwRatio(%d))", c.RwRatio)
 		}
-		return semLock{semap.NewWideSemMap(semap.WithPrime(n))}, semLock{semap.NewSemMap()}, "semap.NewWideSemMap", true
+		if xhash {
+			return semLock{semap.NewWideXHashSemMap(wopts...)}, semLock{semap.NewSemMap(sopts...)}, "semap.NewWideXHashSemMap" + sfx, true
+		}
+		return semLock{semap.NewWideSemMap(wopts...)}, semLock{semap.NewSemMap(sopts...)}, "semap.NewWideSemMap" + sfx, true
 	case FamTKeyLock:
 		ctor = "keylock.NewTKeyLockeGrp[" + c.TT + "]"
-		if c.XHash {
+		if xhash {
 			ctor = "keylock.NewTXHashTKeyLockeGrp[" + c.TT + "]"
 		}
 		switch c.TT {
 		case "any":
-			wide, single = mkT[interface{}](n, c.XHash)
+			wide, single = mkT[interface{}](n, xhash)
 		case "hit":
-			wide, single = mkT[hitKey](n, c.XHash)
+			wide, single = mkT[hitKey](n, xhash)
 		case "int":
-			wide, single = mkT[int](n, c.XHash)
+			wide, single = mkT[int](n, xhash)
 		case "u16":
-			wide, single = mkT[uint16](n, c.XHash)
+			wide, single = mkT[uint16](n, xhash)
 		case "i64":
-			wide, single = mkT[int64](n, c.XHash)
+			wide, single = mkT[int64](n, xhash)
 		case "u8":
-			wide, single = mkT[byte](n, c.XHash)
+			wide, single = mkT[byte](n, xhash)
 		case "str":
-			wide, single = mkT[string](n, c.XHash)
+			wide, single = mkT[string](n, xhash)
 		case "bs":
-			wide, single = mkT[bsKey](n, c.XHash)
+			wide, single = mkT[bsKey](n, xhash)
 		default:
 			return nil, nil, "", false
 		}
@@ -228,7 +269,17 @@ func mkLock(c CaseLock) (wide, single lockFace, ctor string, ok bool) {
 	return nil, nil, "", false
 }
 
-const maxLockShards = 4096
+const maxLockShards = maxShards
+
+// lockInst is one sharded lock structure of a case with its unsharded twin.
+type lockInst struct {
+	wide, single lockFace
+	n            uint64
+	xhash        bool
+	ctor         string
+}
+
+func (in *lockInst) where() string { return fmt.Sprintf("%s with %d shards", in.ctor, in.n) }
 
 func ExecLock(c CaseLock) (res *vkit.Result) {
 	res = &vkit.Result{}
@@ -239,14 +290,40 @@ func ExecLock(c CaseLock) (res *vkit.Result) {
 		}
 	}()
 	n := c.Shards
-	if n < 1 || n > maxLockShards {
+	if n < 1 || n > maxLockShards || (c.Other != nil && (c.Other.Shards < 1 || c.Other.Shards > maxLockShards)) {
 		res.Skip("shards-out-of-domain")
 		return res
 	}
-	wide, single, ctor, ok := mkLock(c)
+	if c.RwRatio < 0 || c.RwRatio > 1000 || (c.RwRatio != 0 && c.Fam != FamSemMap) {
+		res.Skip("rw-ratio-out-of-domain")
+		return res
+	}
+	first := &lockInst{n: n, xhash: c.XHash}
+	var ok bool
+	first.wide, first.single, first.ctor, ok = mkLock(c, n, c.XHash)
 	if !ok {
 		res.Skip("unknown-family-or-type-argument")
 		return res
+	}
+	// what the entry of a held key must read: key lockers count (readers,
+	// writers); the semaphore map counts (tokens held, queued waiters), a reader
+	// holds 1 token, a writer rwRatio tokens
+	ratio := semap.DefaultRWRatio
+	if c.RwRatio != 0 {
+		ratio = c.RwRatio
+	}
+	unit := "readers / writers"
+	if c.Fam == FamSemMap {
+		unit = fmt.Sprintf("tokens held / waiters (a reader holds 1, a writer rwRatio = %d)", ratio)
+	}
+	expect := func(read bool) (int, int) {
+		switch {
+		case read:
+			return 1, 0
+		case c.Fam == FamSemMap:
+			return ratio, 0
+		}
+		return 0, 1
 	}
 	// usable keys: inside the domain of the constructor, of the type argument, each value once
 	type lk struct {
@@ -274,48 +351,124 @@ func ExecLock(c CaseLock) (res *vkit.Result) {
 			ks = append(ks, lk{k, v, i < len(c.Read) && c.Read[i]})
 		}
 	}
-	where := func() string { return fmt.Sprintf("%s with %d shards", ctor, n) }
 	mode := func(read bool) string {
 		if read {
 			return "shared"
 		}
 		return "exclusive"
 	}
-	if e := wide.entries(); e != 0 {
-		return res.Failf(c.Fam+"/entries", "%s: %d entries before any call", where(), e)
+	if e := first.wide.entries(); e != 0 {
+		return res.Failf(c.Fam+"/entries", "%s: %d entries before any call", first.where(), e)
+	}
+	// held: the structure holds exactly this key, in this mode
+	checkHeld := func(in *lockInst, k lk, when string) *vkit.Failure {
+		if we, se := in.wide.entries(), in.single.entries(); we != 1 || se != 1 {
+			return &vkit.Failure{Site: c.Fam + "/entries", Msg: fmt.Sprintf("%s: while %v is held (%s) and nothing else%s: %d entries, the unsharded structure has %d, want 1", in.where(), k.key, mode(k.read), when, we, se)}
+		}
+		if wr, ww, wp, has := in.wide.counts(k.v); has {
+			sr, sw, sp, _ := in.single.counts(k.v)
+			er, ew := expect(k.read)
+			if wr != sr || ww != sw || wp != sp || wr != er || ww != ew || !wp {
+				return &vkit.Failure{Site: c.Fam + "/counts", Msg: fmt.Sprintf("%s: while %v is held (%s)%s: entry found in the key's shard = %v with %d / %d %s; unsharded: %v, %d / %d; want %d / %d", in.where(), k.key, mode(k.read), when, wp, wr, ww, unit, sp, sr, sw, er, ew)}
+			}
+		}
+		return nil
+	}
+	checkFree := func(in *lockInst, k lk, when string) *vkit.Failure {
+		if we, se := in.wide.entries(), in.single.entries(); we != 0 || se != 0 {
+			return &vkit.Failure{Site: c.Fam + "/entries", Msg: fmt.Sprintf("%s: after %v was held (%s) and released%s: %d entries left, the unsharded structure has %d, want 0", in.where(), k.key, mode(k.read), when, we, se)}
+		}
+		return nil
+	}
+	take := func(in *lockInst, k lk) (rel func(), f *vkit.Failure) {
+		wrel, err := in.wide.acquire(k.v, k.read)
+		if err != nil {
+			return nil, &vkit.Failure{Site: c.Fam + "/acquire", Msg: fmt.Sprintf("%s: %s acquire of %v, which nobody holds, failed: %v", in.where(), mode(k.read), k.key, err)}
+		}
+		srel, err := in.single.acquire(k.v, k.read)
+		if err != nil {
+			return nil, &vkit.Failure{Site: c.Fam + "/acquire", Msg: fmt.Sprintf("unsharded counterpart of %s: %s acquire of %v failed: %v", in.where(), mode(k.read), k.key, err)}
+		}
+		return func() { wrel(); srel() }, nil
+	}
+	var second *lockInst
+	at := -1
+	if c.Other != nil && len(ks) > 0 {
+		at = c.Other.At
+		if at < 0 {
+			at = 0
+		}
+		if at > len(ks)-1 {
+			at = len(ks) - 1
+		}
 	}
 	// every key once: hold, look, release, look
-	for _, k := range ks {
+	for i, k := range ks {
 		classifyKey(res, k.key)
-		doing = fmt.Sprintf("%s: single goroutine, %s acquire and release of %v, nothing else held", where(), mode(k.read), k.key)
-		rel, err := wide.acquire(k.v, k.read)
-		if err != nil {
-			return res.Failf(c.Fam+"/acquire", "%s: %s acquire of %v on the fresh structure failed: %v", where(), mode(k.read), k.key, err)
+		doing = fmt.Sprintf("%s: single goroutine, %s acquire and release of %v, nothing else held on this structure", first.where(), mode(k.read), k.key)
+		rel, f := take(first, k)
+		if f != nil {
+			res.Fail = f
+			return res
 		}
-		srel, err := single.acquire(k.v, k.read)
-		if err != nil {
-			return res.Failf(c.Fam+"/acquire", "unsharded counterpart of %s: %s acquire of %v failed: %v", where(), mode(k.read), k.key, err)
+		note := ""
+		if i == at {
+			doing = fmt.Sprintf("building a second structure (%d shards) while %v is held on %s", c.Other.Shards, k.key, first.where())
+			second = &lockInst{n: c.Other.Shards, xhash: c.Other.XHash}
+			second.wide, second.single, second.ctor, _ = mkLock(c, c.Other.Shards, c.Other.XHash)
+			note = fmt.Sprintf(", after %s with %d shards was built", second.ctor, second.n)
+			res.Class("second-structure-built-while-a-key-is-held")
+			doing = fmt.Sprintf("%s: %v held (%s)%s", first.where(), k.key, mode(k.read), note)
 		}
-		if we, se := wide.entries(), single.entries(); we != 1 || se != 1 {
-			return res.Failf(c.Fam+"/entries", "%s: while %v is held (%s) and nothing else: %d entries, the unsharded structure has %d, want 1", where(), k.key, mode(k.read), we, se)
+		if f := checkHeld(first, k, note); f != nil {
+			res.Fail = f
+			return res
 		}
-		if wr, ww, wp, has := wide.counts(k.v); has {
-			sr, sw, sp, _ := single.counts(k.v)
-			er, ew := 0, 1
-			if k.read {
-				er, ew = 1, 0
+		if second != nil && (!second.xhash || k.key.xhashOK()) {
+			doing = fmt.Sprintf("%s: %s acquire of %v while the same key is held on %s", second.where(), mode(k.read), k.key, first.where())
+			rel2, f := take(second, k)
+			if f != nil {
+				res.Fail = f
+				return res
 			}
-			if wr != sr || ww != sw || wp != sp || wr != er || ww != ew || !wp {
-				return res.Failf(c.Fam+"/counts", "%s: while %v is held (%s): entry found in the key's shard = %v with %d readers / %d writers; unsharded: %v, %d / %d", where(), k.key, mode(k.read), wp, wr, ww, sp, sr, sw)
+			both := fmt.Sprintf(" (the key is held on %s too)", first.where())
+			if f := checkHeld(second, k, both); f != nil {
+				res.Fail = f
+				return res
 			}
-		}
-		rel()
-		srel()
-		if we, se := wide.entries(), single.entries(); we != 0 || se != 0 {
-			return res.Failf(c.Fam+"/entries", "%s: after %v was held (%s) and released: %d entries left, the unsharded structure has %d, want 0", where(), k.key, mode(k.read), we, se)
+			if f := checkHeld(first, k, fmt.Sprintf(" (the key is held on %s too)", second.where())); f != nil {
+				res.Fail = f
+				return res
+			}
+			doing = fmt.Sprintf("%s: release of %v (%s) while the same key is held on %s", first.where(), k.key, mode(k.read), second.where())
+			rel()
+			if f := checkFree(first, k, ""); f != nil {
+				res.Fail = f
+				return res
+			}
+			if f := checkHeld(second, k, fmt.Sprintf(" (it was released on %s)", first.where())); f != nil {
+				res.Fail = f
+				return res
+			}
+			doing = fmt.Sprintf("%s: release of %v (%s)", second.where(), k.key, mode(k.read))
+			rel2()
+			if f := checkFree(second, k, ""); f != nil {
+				res.Fail = f
+				return res
+			}
+			res.Class("key-held-on-two-structures")
+		} else {
+			doing = fmt.Sprintf("%s: release of %v (%s)%s", first.where(), k.key, mode(k.read), note)
+			rel()
+			if f := checkFree(first, k, note); f != nil {
+				res.Fail = f
+				return res
+			}
 		}
 		res.Class("mode=" + mode(k.read))
 	}
+	wide := first.wide
+	where := first.where
 	// two distinct keys held together. Distinct keys never wait for each other
 	// in the unsharded structure; the sequence runs on a goroutine of its own and
 	// is judged at quiescence, so a sharded structure that blocks here is a
@@ -335,14 +488,26 @@ func ExecLock(c CaseLock) (res *vkit.Result) {
 			a, b := ks[i], ks[i+1]
 			pairs++
 			useMulti := c.Multi && c.Fam == FamTKeyLock
+			bread := b.read
+			if useMulti {
+				bread = a.read // one call, one mode
+			}
 			var step atomic.Int32
 			var held, after int
+			var cnt [2][2]int
+			var present [2]bool
+			var hasCounts bool
 			var aerr error
+			look := func() {
+				held = wide.entries()
+				cnt[0][0], cnt[0][1], present[0], hasCounts = wide.counts(a.v)
+				cnt[1][0], cnt[1][1], present[1], _ = wide.counts(b.v)
+			}
 			op := sched.Go("pair", func() {
 				if useMulti {
 					rel, _ := wide.multi([]interface{}{a.v, b.v}, a.read)
 					step.Store(2)
-					held = wide.entries()
+					look()
 					rel()
 				} else {
 					ra, err := wide.acquire(a.v, a.read)
@@ -357,7 +522,7 @@ func ExecLock(c CaseLock) (res *vkit.Result) {
 						return
 					}
 					step.Store(2)
-					held = wide.entries()
+					look()
 					rb()
 					ra()
 				}
@@ -381,6 +546,14 @@ func ExecLock(c CaseLock) (res *vkit.Result) {
 			if held != 2 || after != 0 {
 				return res.Failf(c.Fam+"/entries", "%s: %s: %d entries while both are held (want 2), %d after both were released (want 0)", where(), what, held, after)
 			}
+			if hasCounts {
+				for j, rd := range []bool{a.read, bread} {
+					er, ew := expect(rd)
+					if !present[j] || cnt[j][0] != er || cnt[j][1] != ew {
+						return res.Failf(c.Fam+"/counts", "%s: %s: while both are held, the entry of key number %d of the two is found = %v with %d / %d %s; a single %s holder reads %d / %d in the unsharded structure", where(), what, j+1, present[j], cnt[j][0], cnt[j][1], unit, mode(rd), er, ew)
+					}
+				}
+			}
 			if idx(a.v) == idx(b.v) {
 				res.Class("pair-on-one-shard")
 			} else {
@@ -395,16 +568,36 @@ func ExecLock(c CaseLock) (res *vkit.Result) {
 	if c.Fam == FamTKeyLock {
 		res.Class("type-argument=" + c.TT)
 	}
+	if c.Fam == FamSemMap {
+		if c.RwRatio == 0 {
+			res.Class("rwRatio=default")
+		} else {
+			res.Class(fmt.Sprintf("rwRatio=%d", c.RwRatio))
+		}
+	}
 	if c.XHash {
 		res.Class("routing=xxhash")
 	} else {
 		res.Class("routing=modulo")
+	}
+	if second != nil {
+		if second.n != n {
+			res.Class("structures-differ-in-shard-count")
+		}
+		if second.xhash != c.XHash {
+			res.Class("structures-differ-in-routing")
+		}
 	}
 	lab := "shards=other"
 	for _, d := range lockShards {
 		if d == n {
 			lab = fmt.Sprintf("shards=%d", n)
 		}
+	}
+	if n > 32767 {
+		lab = "shards>32767"
+	} else if n > 4096 {
+		lab = "shards=4097..32767"
 	}
 	res.Class(lab)
 	res.NonTrivial = n >= 2 && len(ks) >= 1
@@ -413,7 +606,7 @@ func ExecLock(c CaseLock) (res *vkit.Result) {
 
 var PartLock = &vkit.Part[CaseLock]{
 	Property: Property, Name: "locks",
-	Rule:  "rapid: family (keylock.KeyLockerGrp | generic keylock.TKeyLockerGrp[T] with T in {interface{}, HitGroup-only struct, int, uint16, int64, byte, string, Bs struct} | semap.WideSemMap) x modulo|xxhash constructor x shard count ({1,2,3,73,211,257,1000} at 90%, any of 1..512) x 1-6 keys (as in part index without []byte; HitGroup-only keys with the modulo constructors only; a HitGroup-only or Bs key forced in half of the untyped cases; for integer type arguments half of the keys are an earlier key plus j*shards: same shard, another value) x shared|exclusive per key. One goroutine holds and releases each key once on the sharded structure and on its unsharded counterpart (KeyLocker / TKeyLocker[T] / SemMap): no panic, no error, the verif hooks read 1 entry (key lockers: in the key's own shard, with 1 reader or 1 writer) while held and 0 afterwards on both. In a third of the cases up to 3 pairs of consecutive distinct keys are then held together (two calls, or one Locks/RLocks call on the generic locker) on a goroutine of their own under a vkit.Sched: at quiescence the sequence must have returned (distinct keys never wait for each other), with 2 entries while held and 0 afterwards. Contention, fairness and exclusion are C01/C02's. Non-trivial: shards >= 2 and at least one usable key; distinct = distinct case JSON",
+	Rule:  "rapid: family (keylock.KeyLockerGrp | generic keylock.TKeyLockerGrp[T] with T in {interface{}, HitGroup-only struct, int, uint16, int64, byte, string, Bs struct} | semap.WideSemMap) x modulo|xxhash constructor x shard count ({1,2,3,73,211,257,1000} at 90%, any of 1..512, rarely one of {65521,32749,32771,40009}: more shards than a 16-bit index addresses) x WithRwRatio in {none,1,2,3,7,10,25} (semaphore map, both sides) x 1-6 keys (as in part index without []byte; HitGroup-only keys with the modulo constructors only; a HitGroup-only or Bs key forced in half of the untyped cases; for integer type arguments half of the keys are an earlier key plus j*shards: same shard, another value) x shared|exclusive per key. One goroutine holds and releases each key once on the sharded structure and on its unsharded counterpart (KeyLocker / TKeyLocker[T] / SemMap): no panic, no error, the verif hooks read 1 entry while held - found through the key's own shard, key lockers with 1 reader or 1 writer, the semaphore map with 1 token held by a reader and rwRatio tokens by a writer and no waiter - and 0 afterwards on both. In a quarter of the cases a second sharded structure of the same family (own shard count and routing, own unsharded twin) is built while one of the keys is held on the first; from then on every key is held on both structures at once and released on the first while the second still holds it, with the same entry and count checks on each (structures are independent objects). In a third of the cases up to 3 pairs of consecutive distinct keys are then held together (two calls, or one Locks/RLocks call on the generic locker) on a goroutine of their own under a vkit.Sched: at quiescence the sequence must have returned (distinct keys never wait for each other), with 2 entries while held (each key's entry with the counts of a single holder of its mode) and 0 afterwards. Contention, fairness and exclusion are C01/C02's. Non-trivial: shards >= 2 and at least one usable key; distinct = distinct case JSON",
 	Quick: 2500, Thorough: 5000,
 	Gen: GenLock, Exec: ExecLock,
 }
